@@ -64,11 +64,13 @@ trait Num4: Copy + std::fmt::Debug + PartialOrd + 'static {
     /// 15 strictly increasing values reaching both ends of the type's range (for floats
     /// including both infinities)
     fn palette() -> [Self; 15];
+    /// the two zeros of a float type (they compare equal but differ in their bits); None for integers
+    fn zeros() -> Option<(Self, Self)>;
     fn classify(a: &Array1<Self>, view: usize) -> Result<Cls, String>;
 }
 
 macro_rules! impl_num4 {
-    ($t:ty, $name:expr, $off:expr, $pal:expr) => {
+    ($t:ty, $name:expr, $off:expr, $zeros:expr, $pal:expr) => {
         impl Num4 for $t {
             const NAME: &'static str = $name;
             fn from_i(i: i64) -> Self {
@@ -76,6 +78,9 @@ macro_rules! impl_num4 {
             }
             fn palette() -> [Self; 15] {
                 $pal
+            }
+            fn zeros() -> Option<(Self, Self)> {
+                $zeros
             }
             fn classify(a: &Array1<Self>, view: usize) -> Result<Cls, String> {
                 let n = a.len();
@@ -101,12 +106,12 @@ macro_rules! impl_num4 {
         }
     };
 }
-impl_num4!(f64, "f64", 0, [f64::NEG_INFINITY, f64::MIN, -1e300, -1e10, -1.0, -1e-300, -5e-324, 0.0, 5e-324, 1e-300, 1.0, 1e10, 1e300, f64::MAX, f64::INFINITY]);
-impl_num4!(f32, "f32", 0, [f32::NEG_INFINITY, f32::MIN, -1e30, -1e10, -1.0, -1e-30, -1e-45, 0.0, 1e-45, 1e-30, 1.0, 1e10, 1e30, f32::MAX, f32::INFINITY]);
-impl_num4!(i32, "i32", 0, [i32::MIN, i32::MIN + 1, -2_000_000_000, -1_000_000_000, -65536, -2, -1, 0, 1, 2, 65536, 1_000_000_000, 2_000_000_000, i32::MAX - 1, i32::MAX]);
-impl_num4!(i64, "i64", 0, [i64::MIN, i64::MIN + 1, -6_000_000_000_000_000_000, -(1 << 53) - 1, -(1 << 31), -2, -1, 0, 1, 2, 1 << 31, (1 << 53) + 1, 6_000_000_000_000_000_000, i64::MAX - 1, i64::MAX]);
-impl_num4!(u32, "u32", 1000, [0, 1, 2, 3, 100, 65535, 65536, 1_000_000_000, (1 << 31) - 1, 1 << 31, (1 << 31) + 1, 3_000_000_000, 4_000_000_000, u32::MAX - 1, u32::MAX]);
-impl_num4!(u64, "u64", 1000, [0, 1, 2, 3, 100, 65535, 1 << 32, (1 << 53) + 1, (1 << 63) - 1, 1 << 63, (1 << 63) + 1, 12_000_000_000_000_000_000, 18_000_000_000_000_000_000, u64::MAX - 1, u64::MAX]);
+impl_num4!(f64, "f64", 0, Some((-0.0, 0.0)), [f64::NEG_INFINITY, f64::MIN, -1e300, -1e10, -1.0, -1e-300, -5e-324, 0.0, 5e-324, 1e-300, 1.0, 1e10, 1e300, f64::MAX, f64::INFINITY]);
+impl_num4!(f32, "f32", 0, Some((-0.0, 0.0)), [f32::NEG_INFINITY, f32::MIN, -1e30, -1e10, -1.0, -1e-30, -1e-45, 0.0, 1e-45, 1e-30, 1.0, 1e10, 1e30, f32::MAX, f32::INFINITY]);
+impl_num4!(i32, "i32", 0, None, [i32::MIN, i32::MIN + 1, -2_000_000_000, -1_000_000_000, -65536, -2, -1, 0, 1, 2, 65536, 1_000_000_000, 2_000_000_000, i32::MAX - 1, i32::MAX]);
+impl_num4!(i64, "i64", 0, None, [i64::MIN, i64::MIN + 1, -6_000_000_000_000_000_000, -(1 << 53) - 1, -(1 << 31), -2, -1, 0, 1, 2, 1 << 31, (1 << 53) + 1, 6_000_000_000_000_000_000, i64::MAX - 1, i64::MAX]);
+impl_num4!(u32, "u32", 1000, None, [0, 1, 2, 3, 100, 65535, 65536, 1_000_000_000, (1 << 31) - 1, 1 << 31, (1 << 31) + 1, 3_000_000_000, 4_000_000_000, u32::MAX - 1, u32::MAX]);
+impl_num4!(u64, "u64", 1000, None, [0, 1, 2, 3, 100, 65535, 1 << 32, (1 << 53) + 1, (1 << 63) - 1, 1 << 63, (1 << 63) + 1, 12_000_000_000_000_000_000, 18_000_000_000_000_000_000, u64::MAX - 1, u64::MAX]);
 
 /// the same relation word realised with values from both ends of the type's range: the lowest
 /// level of the walk becomes the smallest value (-inf for floats), the highest the largest (+inf)
@@ -129,8 +134,51 @@ fn extreme_values<N: Num4>(word: &[u8]) -> Option<Vec<N>> {
     )
 }
 
+/// the same relation word with its ties realised by the two zeros of a float type: the walk is
+/// shifted so that the first tie lies on level 0, and the elements on level 0 take the signs
+/// -0, +0, -0, .. (or +0, -0, ..) in turn. -0.0 == +0.0, so the word - and the class - is unchanged.
+fn signed_zero_values<N: Num4>(word: &[u8], start_negative: bool) -> Option<Vec<N>> {
+    let (neg, pos) = N::zeros()?;
+    let first_tie = word.iter().position(|&c| c == 1)?;
+    let levels = values(word);
+    let off = levels[first_tie];
+    let mut next_negative = start_negative;
+    Some(
+        levels
+            .iter()
+            .map(|&l| {
+                if l == off {
+                    let z = if next_negative { neg } else { pos };
+                    next_negative = !next_negative;
+                    z
+                } else {
+                    N::from_i(l - off)
+                }
+            })
+            .collect(),
+    )
+}
+
 fn check_word<N: Num4>(word: &[u8], ev: &mut Ev, case: u64, views: &[usize]) {
     let vals = values(word);
+    for start_negative in [true, false] {
+        if let Some(sz) = signed_zero_values::<N>(word, start_negative) {
+            let a: Array1<N> = Array1::from(sz);
+            ev.add("classifications", 1);
+            ev.add("signed_zero_tie_classifications", 1);
+            match N::classify(&a, views[0]) {
+                Ok(got) if got == reference(word) => {}
+                other => {
+                    ev.violation(
+                        "C12:misclassified",
+                        &format!("{} vector {:?} (view {}; ties between -0.0 and +0.0): expected {:?}, got {:?}", N::NAME, a.to_vec(), views[0], reference(word), other),
+                        case,
+                        J::obj().set("elem", N::NAME).set("values", format!("{:?}", a.to_vec())).set("view", views[0]),
+                    );
+                }
+            }
+        }
+    }
     let arr: Array1<N> = vals.iter().map(|&i| N::from_i(i)).collect();
     let want = reference(word);
     // the same word at the ends of the type's range (infinite ties, steps wider than MAX)
@@ -202,8 +250,18 @@ fn builder_clause(ev: &mut Ev) {
         for idx in 0..3usize.pow(len as u32) {
             let mut k = idx;
             let word: Vec<u8> = (0..len).map(|_| { let c = (k % 3) as u8; k /= 3; c }).collect();
-            let base: Vec<f64> = values(&word).iter().map(|&i| i as f64 * 0.5).collect();
-            for nan_at in std::iter::once(None).chain((0..base.len()).map(Some)) {
+            let plain: Vec<f64> = values(&word).iter().map(|&i| i as f64 * 0.5).collect();
+            // the word as it stands, and with its ties realised as (-0.0, +0.0) / (+0.0, -0.0)
+            let mut realisations = vec![plain];
+            realisations.extend(signed_zero_values::<f64>(&word, true));
+            realisations.extend(signed_zero_values::<f64>(&word, false));
+            for (base, nan_at) in realisations.iter().enumerate().flat_map(|(r, b)| {
+                let n = if r == 0 { b.len() } else { 0 };
+                std::iter::once((b, None)).chain((0..n).map(move |p| (b, Some(p))))
+            }) {
+                if base.iter().any(|z| *z == 0.0 && z.is_sign_negative()) {
+                    ev.add("builder_clause_signed_zero_axes", 1);
+                }
                 let mut v = base.clone();
                 if let Some(p) = nan_at {
                     v[p] = f64::NAN;
@@ -242,6 +300,35 @@ fn builder_clause(ev: &mut Ev) {
                         id,
                     );
                 }
+            }
+        }
+    }
+    // long axes with a single defect (tie / swapped pair / NaN) at EVERY position: a validation
+    // that works block-wise (or samples) and skips a pair lets such an axis through
+    for &n in &[512usize, 513, 768, 1025] {
+        let good = Array1::from((0..n).map(|i| i as f64).collect::<Vec<_>>());
+        let d1 = Array1::<f64>::zeros(n);
+        let dx = Array2::<f64>::zeros((n, 2));
+        let dy = Array2::<f64>::zeros((2, n));
+        let two = Array1::from(vec![0.0f64, 1.0]);
+        verdict(format!("Interp1D valid axis 0..{n}"), guard(|| Interp1D::builder(d1.view()).x(good.view()).build().is_ok()), true, ev, 7_600_000);
+        verdict(format!("Interp2D valid x axis 0..{n}"), guard(|| Interp2D::builder(dx.view()).x(good.view()).y(two.view()).build().is_ok()), true, ev, 7_600_000);
+        verdict(format!("Interp2D valid y axis 0..{n}"), guard(|| Interp2D::builder(dy.view()).x(two.view()).y(good.view()).build().is_ok()), true, ev, 7_600_000);
+        for pos in 0..n - 1 {
+            for defect in 0..3 {
+                let mut v = good.clone();
+                match defect {
+                    0 => v[pos + 1] = v[pos],
+                    1 => v.swap(pos, pos + 1),
+                    _ => v[pos] = f64::NAN,
+                }
+                let what = ["tie", "swapped pair", "NaN"][defect];
+                let id = 7_600_000 + (n * 4 + defect) as u64 * 2048 + pos as u64;
+                ev.add("builder_clause_long_axes", 1);
+                verdict(format!("Interp1D axis of {n} knots, {what} at {pos} (owned)"), guard(|| Interp1D::builder(d1.view()).x(v.clone()).build().is_ok()), false, ev, id);
+                verdict(format!("Interp1D axis of {n} knots, {what} at {pos} (view)"), guard(|| Interp1D::builder(d1.view()).x(v.view()).build().is_ok()), false, ev, id);
+                verdict(format!("Interp2D x axis of {n} knots, {what} at {pos}"), guard(|| Interp2D::builder(dx.view()).x(v.view()).y(two.view()).build().is_ok()), false, ev, id);
+                verdict(format!("Interp2D y axis of {n} knots, {what} at {pos}"), guard(|| Interp2D::builder(dy.view()).x(two.view()).y(v.view()).build().is_ok()), false, ev, id);
             }
         }
     }
